@@ -135,7 +135,8 @@ def pick (tr : Trail) : Clause → Pick
 inductive Err where
   | assertion      -- AssertionError in analyze_conflict
   | index          -- IndexError / KeyError
-  | outOfFuel
+  | outOfFuel      -- the fuel standing in for `while True` of the main loop / of `analyze_conflict` ran out
+  | propFuel       -- the fuel of `unit_propagate` ran out (never happens: `no_crash`)
   deriving Repr, BEq, DecidableEq
 
 /-- `analyze_conflict`: returns (proof, clause, remaining oracle). -/
@@ -207,7 +208,7 @@ def mainLoop (vars : List Nat) (nvars af : Nat) : Nat → St → Prop' → Resul
   | 0, _, _ => .error .outOfFuel
   | fuel + 1, s, pr =>
     match pr with
-    | .outOfFuel => .error .outOfFuel
+    | .outOfFuel => .error .propFuel
     | .sat => .sat (s.tr.map (fun a => (a.name, a.val)))
     | .undecided =>
       let level := s.level + 1
@@ -313,10 +314,14 @@ end Holpy.C15
 -- ---------------------------------------------------------------- Tseitin encoding
 namespace Holpy.C15
 
-/-- Propositional formulas as `prover/tseitin.py` sees them (`is_logical`: ¬ ∧ ∨ ⟶ ⟷; anything
-else is an atom). -/
+/-- Propositional formulas as `prover/tseitin.py` sees them (`is_logical`: ¬ ∧ ∨ ⟶ and ⟷ between
+booleans; `true`/`false`; anything else is an atom).  Variable names are numbers shared with the
+CNF: the name `x<k>` is `2 * k`, every other name (and the identity of an atom that is not a
+variable, such as `m = n` on numbers) is an odd number. -/
 inductive Form where
   | atom (n : Nat)
+  | tt
+  | ff
   | not (a : Form)
   | and (a b : Form)
   | or (a b : Form)
@@ -326,6 +331,8 @@ inductive Form where
 
 def Form.eval (ρ : Nat → Bool) : Form → Bool
   | .atom n => ρ n
+  | .tt => true
+  | .ff => false
   | .not a => !(a.eval ρ)
   | .and a b => a.eval ρ && b.eval ρ
   | .or a b => a.eval ρ || b.eval ρ
@@ -335,19 +342,80 @@ def Form.eval (ρ : Nat → Bool) : Form → Bool
 /-- `rec(t)` of `logic_subterms`: the subterms, children first. -/
 def Form.subs : Form → List Form
   | .atom n => [.atom n]
+  | .tt => [.tt]
+  | .ff => [.ff]
   | .not a => a.subs ++ [.not a]
   | .and a b => a.subs ++ b.subs ++ [.and a b]
   | .or a b => a.subs ++ b.subs ++ [.or a b]
   | .imp a b => a.subs ++ b.subs ++ [.imp a b]
   | .iff a b => a.subs ++ b.subs ++ [.iff a b]
 
+/-- immediate logical subterms -/
+def Form.children : Form → List Form
+  | .not a => [a]
+  | .and a b | .or a b | .imp a b | .iff a b => [a, b]
+  | _ => []
+
+/-- the atoms of the formula (for variables: their names, part of `t.get_vars()`) -/
+def Form.names : Form → List Nat
+  | .atom n => [n]
+  | .tt | .ff => []
+  | .not a => a.names
+  | .and a b | .or a b | .imp a b | .iff a b => a.names ++ b.names
+
 /-- the distinct subterms in first-occurrence order (`set(ts)`; the Python then sorts them with
 `term_ord.fast_compare` — that order is an oracle argument of `tseitinOrd`) -/
 def dedupF (l : List Form) : List Form :=
   l.foldl (fun acc g => if acc.contains g then acc else acc ++ [g]) []
 
-/-- `subterm_dict[g]` is the variable `x{i+1}` where `i` is the position of `g` in the order. -/
-def varOf (order : List Form) (g : Form) : Nat := order.idxOf g + 1
+/-- `while 'x' + str(i) in used_names: i += 1`; no name above `used.sum` is used, so the fuel
+`used.sum + 1` the caller passes always suffices (`nextFree_free`). -/
+def nextFree (used : List Nat) : Nat → Nat → Nat
+  | 0, i => i
+  | fuel + 1, i => if used.contains (2 * i) then nextFree used fuel (i + 1) else i
+
+/-- the indices `encode` gives to `n` subterms, starting the search at `i` -/
+def freshFrom (used : List Nat) : Nat → Nat → List Nat
+  | 0, _ => []
+  | n + 1, i =>
+    let j := nextFree used (used.sum + 1) i
+    (2 * j) :: freshFrom used n (j + 1)
+
+/-- names of the auxiliary variables after the fix: `x<i>` for the first `n` indices `i ≥ 1` whose
+name is not in `used` (the atoms of the formula and the variables inside its non-variable atoms) -/
+def freshNames (used : List Nat) (n : Nat) : List Nat := freshFrom used n 1
+
+/-- names before the fix: `x1 .. xn` whatever `f` mentions -/
+def plainNames (n : Nat) : List Nat := (List.range n).map (fun i => 2 * (i + 1))
+
+/-- `subterm_dict[g]` for the numbering `order` and the names `names` -/
+def varOf (names : List Nat) (order : List Form) (g : Form) : Nat :=
+  names.getD (order.idxOf g) 0
+
+/-- right-hand side of the equation `x_g ⟷ …` that `encode` assumes for `g` -/
+def rhsOf (names : List Nat) (order : List Form) : Form → Form
+  | .not a => .not (.atom (varOf names order a))
+  | .and a b => .and (.atom (varOf names order a)) (.atom (varOf names order b))
+  | .or a b => .or (.atom (varOf names order a)) (.atom (varOf names order b))
+  | .imp a b => .imp (.atom (varOf names order a)) (.atom (varOf names order b))
+  | .iff a b => .iff (.atom (varOf names order a)) (.atom (varOf names order b))
+  | g => g
+
+/-- `top_conv(rewr_conv(x = pat, sym=True))`: every occurrence of `pat`, found top-down, becomes
+the variable `x` -/
+def Form.replace (t : Form) (pat : Form) (x : Nat) : Form :=
+  if t = pat then .atom x else
+  match t with
+  | .not a => .not (a.replace pat x)
+  | .and a b => .and (a.replace pat x) (b.replace pat x)
+  | .or a b => .or (a.replace pat x) (b.replace pat x)
+  | .imp a b => .imp (a.replace pat x) (b.replace pat x)
+  | .iff a b => .iff (a.replace pat x) (b.replace pat x)
+  | t => t
+
+/-- the loop `for eq_pt in eq_pts: encode_pt = encode_pt.on_prop(top_conv(rewr_conv(eq_pt, sym=True)))` -/
+def rewriteAll (names : List Nat) (order : List Form) (f : Form) : Form :=
+  order.foldl (fun t g => t.replace (rhsOf names order g) (varOf names order g)) f
 
 /-- right-hand sides of `encode_not/conj/disj/imp/eq` as clause lists (checked against the rules
 regenerated from `library/sat.json` in `Props.lean`) -/
@@ -362,27 +430,74 @@ def clausesIff (l r1 r2 : Nat) : CNF :=
   [[(l, false), (r1, false), (r2, true)], [(l, false), (r1, true), (r2, false)],
    [(l, true), (r1, false), (r2, false)], [(l, true), (r1, true), (r2, true)]]
 
-/-- the clauses contributed by the equation `x_g ⟷ op(x_a, x_b)` (none for an atom: its equation
-`x_g ⟷ atom` stays a hypothesis of the theorem) -/
-def clausesOf (order : List Form) (g : Form) : CNF :=
+/-- the clauses contributed by the equation of `g`: the rule's right-hand side for a connective,
+the unit clause `x` / `¬x` for `true` / `false` (`eq_true`, `eq_false`), none for an atom (its
+equation `x_g ⟷ atom` stays a hypothesis of the theorem) -/
+def clausesOf (names : List Nat) (order : List Form) (g : Form) : CNF :=
+  let v := varOf names order
   match g with
   | .atom _ => []
-  | .not a => clausesNot (varOf order g) (varOf order a)
-  | .and a b => clausesAnd (varOf order g) (varOf order a) (varOf order b)
-  | .or a b => clausesOr (varOf order g) (varOf order a) (varOf order b)
-  | .imp a b => clausesImp (varOf order g) (varOf order a) (varOf order b)
-  | .iff a b => clausesIff (varOf order g) (varOf order a) (varOf order b)
+  | .tt => [[(v g, true)]]
+  | .ff => [[(v g, false)]]
+  | .not a => clausesNot (v g) (v a)
+  | .and a b => clausesAnd (v g) (v a) (v b)
+  | .or a b => clausesOr (v g) (v a) (v b)
+  | .imp a b => clausesImp (v g) (v a) (v b)
+  | .iff a b => clausesIff (v g) (v a) (v b)
 
-/-- CNF of `tseitin.encode(f)` for a given numbering of the subterms: the clauses of every
-subterm's equation, and the unit clause of the variable standing for `f`. -/
-def tseitinWith (order : List Form) (f : Form) : CNF :=
-  order.flatMap (clausesOf order) ++ [[(varOf order f, true)]]
+/-- `convert_cnf` on what is left of the formula itself after the rewriting (a single variable
+when the encoding works as intended): conjuncts, then disjuncts along the right spine, then
+literals; `none` where `convert_literal` would fail. -/
+def Form.conjuncts : Form → List Form
+  | .and a b => a.conjuncts ++ b.conjuncts
+  | t => [t]
 
-def tseitin (f : Form) : CNF := tseitinWith (dedupF f.subs) f
+def Form.disjuncts : Form → List Form
+  | .or a b => a :: b.disjuncts
+  | t => [t]
 
-/-- Use the recorded subterm order when it lists exactly the subterms of `f`. -/
-def tseitinOrd (f : Form) (o : List Form) : CNF :=
-  let d := dedupF f.subs
-  if o.all d.contains && d.all o.contains then tseitinWith o f else tseitinWith d f
+def litOfForm : Form → Option Lit
+  | .atom n => some (n, true)
+  | .not (.atom n) => some (n, false)
+  | _ => none
+
+def cnfOfForm (t : Form) : Option CNF :=
+  t.conjuncts.mapM (fun c => c.disjuncts.mapM litOfForm)
+
+/-- CNF of `tseitin.encode(f)` for a numbering of the subterms and a choice of names: the clauses
+of every subterm's equation, and the clauses of the rewritten formula. -/
+def tseitinNamed (names : List Nat) (order : List Form) (f : Form) : Option CNF :=
+  match cnfOfForm (rewriteAll names order f) with
+  | some c => some (order.flatMap (clausesOf names order) ++ c)
+  | none => none
+
+def nodupB : List Form → Bool
+  | [] => true
+  | x :: xs => !xs.contains x && nodupB xs
+
+/-- what the theorems need of the numbering: it lists exactly the subterms of `f`, each once,
+children before parents (`sorted_terms` sorts by size first) -/
+def orderOK (order : List Form) (f : Form) : Bool :=
+  order.all f.subs.contains && f.subs.all order.contains && nodupB order &&
+  order.zipIdx.all (fun (g, i) => g.children.all (fun c => order.idxOf c < i))
+
+/-- the recorded subterm order when usable, else first-occurrence order -/
+def pickOrder (f : Form) (o : List Form) : Option (List Form) :=
+  if orderOK o f then some o
+  else if orderOK (dedupF f.subs) f then some (dedupF f.subs) else none
+
+/-- `encode` after the fix; `extra` = names of variables inside atoms that are not variables. -/
+def tseitinOrd (f : Form) (extra : List Nat) (o : List Form) : Option CNF :=
+  match pickOrder f o with
+  | some order => tseitinNamed (freshNames (f.names ++ extra) order.length) order f
+  | none => none
+
+def tseitin (f : Form) : Option CNF := tseitinOrd f [] []
+
+/-- the naming before the fix (`x1..xn` regardless of the atoms of `f`) -/
+def tseitinUnfixed (f : Form) (o : List Form) : Option CNF :=
+  match pickOrder f o with
+  | some order => tseitinNamed (plainNames order.length) order f
+  | none => none
 
 end Holpy.C15
